@@ -328,6 +328,10 @@ Section Decoders.
 End Decoders.
 
 (** ** decoding is a left inverse of the canonical encoding *)
+Lemma fold_key_query fl : fold_key fl k_query = k_query. Proof. destruct fl; reflexivity. Qed.
+Lemma fold_key_variables fl : fold_key fl k_variables = k_variables. Proof. destruct fl; reflexivity. Qed.
+Lemma fold_key_opname fl : fold_key fl k_opname = k_opname. Proof. destruct fl; reflexivity. Qed.
+
 Lemma decode_body_json fl we wq o :
   wf_op o = true ->
   decode_struct fl we (body_json wq o) =
@@ -339,6 +343,7 @@ Proof.
   { destruct (o_opname o); cbn; auto. }
   destruct wq; destruct (o_vars o) as [m|]; cbn [app decode_struct];
     destruct N as [[-> ->]| ->];
+    cbn [fold_members map fst snd app]; rewrite ?fold_key_query, ?fold_key_variables, ?fold_key_opname;
     repeat (first [rewrite df_query | rewrite df_variables | rewrite df_opname];
             cbn [set_string with_query with_vars with_opname zero_body b_query b_opname b_vars b_ext];
             try rewrite (set_map_wf _ W));
@@ -351,7 +356,7 @@ Section Roundtrip.
   Variable clean : json -> Prop.                (* values on which the JSON text layer is faithful *)
   Hypothesis std_faithful : forall j, clean j -> parse_std (render j) = PTree j.
   Hypothesis jsi_faithful : forall j, clean j -> parse_jsi (render j) = PTree j.
-  Hypothesis render_nonempty : forall j, is_empty (render j) = false.
+  Hypothesis render_nonempty : forall j, clean j -> is_empty (render j) = false.
 
   Lemma if_query_nonempty (q : bytes) : (if false || negb (is_empty q) then q else []) = q.
   Proof. destruct q; reflexivity. Qed.
@@ -368,7 +373,7 @@ Section Roundtrip.
              | |- context [bytes_eqb ?a ?b] =>
                  first [ change (bytes_eqb a b) with true | change (bytes_eqb a b) with false ]; cbn match
              end;
-      unfold url_param_map; rewrite ?render_nonempty; cbn [is_empty];
+      unfold url_param_map; rewrite ?(render_nonempty (JObj m) (C _ (or_introl eq_refl))); cbn [is_empty];
       rewrite ?(std_faithful (JObj m) (C _ (or_introl eq_refl))); cbn [unmarshal_map];
       rewrite ?(set_map_wf m W); reflexivity.
   Qed.
@@ -453,7 +458,7 @@ Section PipelineProofs.
   Variable clean : json -> Prop.
   Hypothesis std_faithful : forall j, clean j -> parse_std (render j) = PTree j.
   Hypothesis jsi_faithful : forall j, clean j -> parse_jsi (render j) = PTree j.
-  Hypothesis render_nonempty : forall j, is_empty (render j) = false.
+  Hypothesis render_nonempty : forall j, clean j -> is_empty (render j) = false.
   (** C18: without a persistedQuery extension the wrapper is the identity; and it only uses its
       argument by calling it *)
   Hypothesis pq_no_ext : forall ex r, r_ext r = None -> pq_ext ex r = ex r.
@@ -746,14 +751,16 @@ Proof.
 Qed.
 
 Theorem std_jsoniter_agree kvs b :
-  has_range (JObj kvs) = false -> single_string_members kvs = true ->
+  fold_members StdJson kvs = fold_members Jsoniter kvs ->
+  has_range (JObj kvs) = false -> single_string_members (fold_members StdJson kvs) = true ->
   decode_struct StdJson true (JObj kvs) = Some b ->
   exists b', decode_struct Jsoniter false (JObj kvs) = Some b' /\ body_op b = body_op b'.
 Proof.
-  intros NR SG D. cbn [decode_struct] in *.
-  eapply (df_std_jsi kvs zero_body zero_body); try eassumption; try reflexivity.
+  intros FE NR SG D. cbn [decode_struct] in *. rewrite <- FE.
+  eapply (df_std_jsi (fold_members StdJson kvs) zero_body zero_body); try eassumption; try reflexivity.
   rewrite has_range_obj in NR. rewrite forallb_forall. intros kv Hin.
-  apply negb_true_iff. destruct (has_range (snd kv)) eqn:E; [|reflexivity].
+  unfold fold_members in Hin. apply in_map_iff in Hin as (kv0 & <- & Hin). cbn [snd].
+  apply negb_true_iff. destruct (has_range (snd kv0)) eqn:E; [|reflexivity].
   assert (X : existsb (fun p => has_range (snd p)) kvs = true) by (apply existsb_exists; eauto). congruence.
 Qed.
 
@@ -761,16 +768,17 @@ Qed.
     subscribe payload is read as the same operation *)
 Theorem post_body_and_ws_payload_agree parse_std parse_jsi text kvs p id o x :
   parse_std text = PTree (JObj kvs) -> parse_jsi text = PTree (JObj kvs) ->
-  has_range (JObj kvs) = false -> single_string_members kvs = true ->
+  fold_members StdJson kvs = fold_members Jsoniter kvs ->
+  has_range (JObj kvs) = false -> single_string_members (fold_members StdJson kvs) = true ->
   decode fixed parse_std parse_jsi (WHttp {| e_method := m_post; e_media := mt_json; e_url := []; e_body := text |}) = Some (o, x) ->
   decode fixed parse_std parse_jsi (WWs p {| f_type := start_type p; f_id := id; f_payload := Some text |}) = Some (o, None).
 Proof.
-  intros Ps Pj NR SG. cbn [decode]. unfold new_request_from_http. cbn [e_method e_media e_url e_body].
+  intros Ps Pj FE NR SG. cbn [decode]. unfold new_request_from_http. cbn [e_method e_media e_url e_body].
   change (bytes_eqb m_post m_get) with false. change (bytes_eqb m_post m_post) with true.
   change (bytes_eqb mt_json mt_json) with true. cbn match.
   unfold decode_post_body. rewrite Ps.
   destruct (decode_struct StdJson true (JObj kvs)) as [b|] eqn:D; [|discriminate].
-  destruct (std_jsoniter_agree kvs b NR SG D) as (b' & D' & EQ).
+  destruct (std_jsoniter_agree kvs b FE NR SG D) as (b' & D' & EQ).
   intros [= <- <-]. unfold handle_message. cbn [f_type f_id f_payload]. rewrite bytes_eqb_refl. cbn [negb].
   unfold decode_payload. rewrite Pj, D'. unfold body_op in EQ. injection EQ as E1 E2 E3.
   cbn [url_get q_overwrite fixed orb]. unfold op_of_request. cbn [r_query r_vars r_opname].
